@@ -196,26 +196,21 @@ func ruleCommitSetAlways(c *Ctx) {
 	f := wl.fn
 	c.touch(f)
 	n := 0
-	instrs(f, func(in ssa.Instruction) {
-		mu, ok := in.(*ssa.MapUpdate)
-		if !ok || !isFieldLoad(mu.Map, "DB", "committedTxIds") {
-			return
+	sym := func(v ssa.Value) string {
+		if sameValue(v, wl.idx) {
+			return "IDX"
 		}
-		n++
-		sym := func(v ssa.Value) string {
-			if sameValue(v, wl.idx) {
-				return "IDX"
-			}
-			if isFieldLoad(v, "Tx", "pendingWrites") {
-				return "PW"
-			}
-			return pathOf(v)
+		if isFieldLoad(v, "Tx", "pendingWrites") {
+			return "PW"
 		}
-		var offender *ssa.If
-		for _, ifi := range ifsOf(f) {
+		return pathOf(v)
+	}
+	// offendingControl: an If of fn that controls block b and is not one of the accepted kinds
+	offendingControl := func(fn *ssa.Function, b *ssa.BasicBlock) *ssa.If {
+		for _, ifi := range ifsOf(fn) {
 			controls := false
 			for si := range ifi.Block().Succs {
-				if edgesDominate(f, []succEdge{{ifi.Block(), si}}, mu.Block()) {
+				if edgesDominate(fn, []succEdge{{ifi.Block(), si}}, b) {
 					controls = true
 				}
 			}
@@ -226,7 +221,6 @@ func ruleCommitSetAlways(c *Ctx) {
 			okc := false
 			switch {
 			case a.Op == token.EQL || a.Op == token.NEQ:
-				// error tests, mode tests, last-index test
 				if isNilConst(a.Y) || isNilConst(a.X) {
 					okc = true
 				}
@@ -247,7 +241,6 @@ func ruleCommitSetAlways(c *Ctx) {
 				if _, hasIdx := d.terms["IDX"]; hasIdx {
 					okc = true // the loop condition
 				}
-				// the size tests of the write loop (rotation, oversized entry)
 				for _, v := range []ssa.Value{a.X, a.Y} {
 					backSlice(v, func(x ssa.Value) {
 						if isFieldLoad(x, "Options", "SegmentSize") {
@@ -255,26 +248,60 @@ func ruleCommitSetAlways(c *Ctx) {
 						}
 					})
 				}
-				// len(pendingWrites) == 0 early exit is EQL; writesLen comparisons
 				if _, hasPW := d.terms["len(PW)"]; hasPW {
 					okc = true
 				}
 			case a.Op == token.ILLEGAL:
-				// bare boolean: Options.SyncEnable and the like do not dominate the registration today
 				if a.X != nil && (isFieldLoad(a.X, "Options", "SyncEnable") || isFieldLoad(a.X, "DB", "isMerging")) {
 					okc = true
 				}
 			}
-			if t, ok := ifi.Cond.Type().Underlying().(*types.Basic); ok && t.Kind() == types.Bool && !okc && offender == nil {
-				offender = ifi
+			if t, ok := ifi.Cond.Type().Underlying().(*types.Basic); ok && t.Kind() == types.Bool && !okc {
+				return ifi
 			}
 		}
+		return nil
+	}
+	report := func(pos string, offender *ssa.If) {
 		if offender == nil {
-			c.ok(fnName(f), "every transaction committing in a RAM index mode registers its id", c.P.ipos(mu), "controlled only by the marker-record test, the index mode and error tests")
+			c.ok(fnName(f), "every transaction committing in a RAM index mode registers its id", pos, "controlled only by the marker-record test, the index mode and error tests")
 		} else {
 			c.bad(fnName(f), "every transaction committing in a RAM index mode registers its id", c.P.ipos(offender),
 				"the registration of the transaction id in DB.committedTxIds depends on an additional condition ("+shortInstr(offender)+"): transactions for which it is false commit without being registered, and Merge, which keeps only records of registered transactions, drops their records from disk")
 		}
+	}
+	isReg := func(in ssa.Instruction) bool {
+		mu, ok := in.(*ssa.MapUpdate)
+		return ok && isFieldLoad(mu.Map, "DB", "committedTxIds")
+	}
+	instrs(f, func(in ssa.Instruction) {
+		if isReg(in) {
+			n++
+			report(c.P.ipos(in), offendingControl(f, in.Block()))
+			return
+		}
+		// a helper called from the write-loop function that performs the registration
+		ci, ok := in.(ssa.CallInstruction)
+		if !ok {
+			return
+		}
+		cal := ci.Common().StaticCallee()
+		if cal == nil || !c.P.inModule(cal) || cal.Blocks == nil || cal.Pkg != c.P.Main {
+			return
+		}
+		instrs(cal, func(in2 ssa.Instruction) {
+			if !isReg(in2) {
+				return
+			}
+			n++
+			c.touch(cal)
+			off := offendingControl(f, in.Block())
+			if off == nil {
+				// inside the helper the loop index is not visible: only mode, error and nil tests are accepted there
+				off = offendingControl(cal, in2.Block())
+			}
+			report(c.P.ipos(in2), off)
+		})
 	})
 	c.Sites += n
 	c.minInstances("commit-time registrations in DB.committedTxIds", n, 1)
